@@ -2,6 +2,7 @@ package simkit
 
 import (
 	"fmt"
+	"os"
 	"runtime/debug"
 	"strings"
 	"time"
@@ -74,12 +75,24 @@ func (l *panicLogger) Log(m gen.MessageLog) {
 	// the logger runs in the deferred function of the panicking goroutine: its stack still shows
 	// where the panic was raised; keep the repository frames below the panic call
 	where := ""
+	internal := false
 	st := string(debug.Stack())
 	if i := strings.Index(st, "panic("); i >= 0 {
 		k := 0
+		first := true
 		for _, ln := range strings.Split(st[i:], "\n") {
 			ln = strings.TrimSpace(ln)
-			if strings.HasPrefix(ln, "/repo/") || strings.Contains(ln, "/instr_out/src/") {
+			if !strings.HasPrefix(ln, "/") {
+				continue // a function line
+			}
+			repo := strings.HasPrefix(ln, "/repo/") || strings.Contains(ln, "/instr_out/src/")
+			if first && !strings.Contains(ln, "/src/runtime/") {
+				// the first frame outside the Go runtime is the code that panicked: code of the
+				// repository (internal) or a callback of the harness (deliberate)
+				first = false
+				internal = repo
+			}
+			if repo {
 				if j := strings.Index(ln, " +0x"); j > 0 {
 					ln = ln[:j]
 				}
@@ -93,9 +106,22 @@ func (l *panicLogger) Log(m gen.MessageLog) {
 			}
 		}
 	}
+	line := fmt.Sprintf("%s: "+m.Format, append([]any{l.node}, m.Args...)...) + " [raised at" + where + "]"
 	l.e.mu.Lock()
-	l.e.panics = append(l.e.panics, fmt.Sprintf("%s: "+m.Format, append([]any{l.node}, m.Args...)...)+" [raised at"+where+"]")
+	l.e.panics = append(l.e.panics, line)
+	if internal {
+		l.e.internalPanics = append(l.e.internalPanics, line)
+	}
 	l.e.mu.Unlock()
+	if internal {
+		l.e.Probe("panic-raised-by-repository-code")
+		if f := os.Getenv("VERIF_DEBUG_PANICS"); f != "" {
+			if fh, err := os.OpenFile(f, os.O_APPEND|os.O_CREATE|os.O_WRONLY, 0o644); err == nil {
+				fh.WriteString(line + "\n")
+				fh.Close()
+			}
+		}
+	}
 }
 func (l *panicLogger) Terminate() {}
 
@@ -104,4 +130,12 @@ func (e *Env) Panics() []string {
 	e.mu.Lock()
 	defer e.mu.Unlock()
 	return append([]string(nil), e.panics...)
+}
+
+// InternalPanics returns the recovered panics that were raised by code of the repository itself
+// (not by a callback of the harness).
+func (e *Env) InternalPanics() []string {
+	e.mu.Lock()
+	defer e.mu.Unlock()
+	return append([]string(nil), e.internalPanics...)
 }
